@@ -17,6 +17,7 @@ package spy
 //   SendFailed(s, v)        Send returned an error (broken connection / cancelled context)
 //   Stall/Resume/Fail/Cancel(s)   faults injected by the harness
 //   Removed(s)              SubscribeSignedVAA returned (its deferred removal has run)
+//   FloodInfo(cap, n)       a flood of n = cap(sub.ch)+extra Publish calls follows (cap read from the code under test)
 //   End(nsubs)              the scenario is over and everything owed has been waited for; nsubs = len(spyServer.subs)
 //   Timeout(op, ...)        bounded liveness: an operation that the specification says must complete did not
 //                           complete within the deadline; the goroutine dump of the scenario is attached
@@ -465,6 +466,60 @@ func (r *shRun) sync() bool {
 	return true
 }
 
+// queueCap reads the capacity of a subscription's channel from the code under test (in-package), so that a flood
+// always crosses the implementation's own overflow boundary whatever the buffer size is.
+func (r *shRun) queueCap() int {
+	c := -1
+	r.waitFor(func() bool {
+		if r.srv.subsMu.TryLock() {
+			for _, sub := range r.srv.subs {
+				c = cap(sub.ch)
+				break
+			}
+			r.srv.subsMu.Unlock()
+			return true
+		}
+		return false
+	}, shDeadline)
+	return c
+}
+
+// flood publishes cap(sub.ch)+extra VAAs, one after the other, each with the usual deadline.  Most of them carry
+// emitter `em` (matched by the subscribers the scenario stalled), every `every`-th one carries `other` (matched by
+// the subscribers that keep reading), so that the readers' progress is visible without one line per reader per VAA.
+func (r *shRun) flood(a map[string]interface{}) bool {
+	c := r.queueCap()
+	if c < 0 {
+		r.timeout("Mutex", map[string]interface{}{}, "")
+		return false
+	}
+	n := c + vhInt(a, "extra", 4)
+	em, other := vhMap(a, "em"), vhMap(a, "other")
+	every := vhInt(a, "every", 97)
+	r.mu.Lock()
+	r.emit("FloodInfo", map[string]interface{}{"cap": c, "n": n})
+	r.mu.Unlock()
+	// n counts the VAAs with emitter `em` only, so the stalled subscribers' queues overflow whatever their filters
+	matched := 0
+	for i := 1; matched < n; i++ {
+		e := em
+		if i%every == 0 {
+			e = other
+		} else {
+			matched++
+		}
+		if !r.publish(fmt.Sprintf("f%d", i), vhInt(e, "c", 0), vhStr(e, "a")) {
+			return false
+		}
+	}
+	for i := 1; i <= 2; i++ { // and the readers' emitter once more after the overflow
+		if !r.publish(fmt.Sprintf("g%d", i), vhInt(other, "c", 0), vhStr(other, "a")) {
+			return false
+		}
+	}
+	return true
+}
+
 // probes: after a Publish that does not return, are registration and removal still possible?
 func (r *shRun) probes() {
 	var wg sync.WaitGroup
@@ -526,6 +581,8 @@ func shRunScenario(w *shWorld, sc vhScenario) {
 			r.fault(st.Ev, vhStr(st.A, "s"))
 		case "Sync":
 			ok = r.sync()
+		case "Flood":
+			ok = r.flood(st.A)
 		}
 		if !ok {
 			break
